@@ -3,6 +3,7 @@ package engine
 import (
 	"fmt"
 	"sort"
+	"strings"
 
 	txfile "github.com/elastic/go-txfile"
 
@@ -189,11 +190,18 @@ func CheckImage(img []byte, opts txfile.Options, allowed []SpecState, probe bool
 				return
 			}
 		}
+		snap := f.VerifSnapshot()
 		if err := tx.Commit(); err != nil {
 			if k := ErrKind(err); k == "err:commitfail/oom" || k == "err:commitfail/oom/oom" {
 				return // full file: acceptable
 			}
-			res.Probe = "Commit: " + ErrKind(err)
+			// the overwrite needs a page of the meta area at flush time; tryCommitChanges drops the
+			// cause of a failing flush ("failed to flush dirty pages"), so recognise the full meta
+			// area from the allocator state instead
+			if snap.MaxPages > 0 && snap.MetaAvail == 0 && ErrKind(err) == "err:commitfail" {
+				return
+			}
+			res.Probe = "Commit: " + ErrKind(err) + " (" + strings.ReplaceAll(fmt.Sprintf("%+v", err), "\n", " | ") + ")"
 			return
 		}
 		rtx, err := f.BeginReadonly()
